@@ -24,3 +24,5 @@ def register():
     H[('TlsHandshakeCertificateStatus', 'status')] = ('bytes', 'bytearray')
     H[('TlsExtensionCertificateStatusRequestClient', 'responder_id_list')] = ('vector', TlsCertificateStatusRequestResponderIdList)
     H[('TlsExtensionCertificateStatusRequestClient', 'extensions')] = ('vector', TlsCertificateStatusRequestExtensions)
+    from cryptoparser.tls.extension import TlsSignatureAndHashAlgorithmVector
+    H[('TlsHandshakeCertificateRequest', 'supported_signature_algorithms')] = ('optional', ('vector', TlsSignatureAndHashAlgorithmVector))
